@@ -1,3 +1,5 @@
+//go:build !no_c16
+
 package props
 
 import (
